@@ -193,6 +193,26 @@ impl Compiler {
 
     /// Compiles the given AST into executable Bytecode
     pub fn compile_ast(&mut self, ast: &BlockStmt) -> Result<Bytecode, Error> {
+        // Remember what is defined right now: a program that fails to compile should leave nothing behind
+        // in a compiler that is used again afterwards (like the REPL does)
+        let num_globals = self.symbols.num_globals();
+        let num_constants = self.constants.len();
+
+        let result = self.compile_program(ast);
+        if result.is_err() {
+            self.instructions.clear();
+            self.last_instruction = None;
+            self.loop_contexts.clear();
+            self.pending_operands = 0;
+            self.symbols.reset_to_globals(num_globals);
+
+            // (these constants are still managed, and eventually freed, by the garbage collector of this compiler)
+            self.constants.truncate(num_constants);
+        }
+        result
+    }
+
+    fn compile_program(&mut self, ast: &BlockStmt) -> Result<Bytecode, Error> {
         // Call compile_statement on each child node directly
         // We don't re-use compile_block_statement here because it exits the global scope
         for s in ast {
